@@ -4,7 +4,7 @@ import os
 import re
 
 from .guards import prov, op_prov, bool_condition, bool_edge_value, switch_edges
-from .lib import op_local, op_const, place_local, rvalue_operands, op_place
+from .lib import op_local, op_const, place_local, rvalue_operands, op_place, fn_key
 
 EXPLANATION = (
     "Decides the structural clause of C05: the statement-reordering pass moves or deletes a call only "
@@ -295,9 +295,120 @@ def run(ctx):
     m = re.search(r"\bimplicits\s*\(([^)]*)\)", d["u128_overflowing_add"])
     ctx.control("extern with implicits(RangeCheck) is rejected", m.group(1).strip() != "")
     ctx.control("template decoding", decode_template("09696e74656765723a3ac0095f776964655f6d756c00") == "integer::{}_wide_mul")
+    _specialization_traversals(ctx, F)
 
 
 def _is_contains(fn, c):
     if c.name() != "contains":
         return False
     return any("f:moveable_functions" in op_prov(fn, a) for a in c.args[:1])
+
+
+def _specialization_traversals(ctx, F):
+    """R5.3: the stack-driven traversals of a `SpecializationArg` tree agree on the order of the leaves.
+
+    A specialized function's parameters are the `NotSpecialized` leaves of its argument tree in traversal order
+    (signature), the caller's remaining inputs are matched to them in traversal order (the specialized body's
+    builder), and a re-specialization fills them in traversal order (const folding).  Each traversal is a
+    `while let Some(x) = stack.pop()` loop; leaves come out first-to-last exactly when children are pushed in reverse.
+    A traversal that pushes the children of an aggregate in iteration order visits them last-to-first: the constant
+    lands in the wrong member and run-time values shift - only when the optimisation that specializes is enabled."""
+    TY = "SpecializationArg"
+    from .guards import natural_loops
+
+    def slice_calls(f, ops, stop=("pop",), limit=400):
+        """Names of the calls the operands' values are computed by, not looking behind a `pop` (what comes off the stack
+        was put there by other pushes) and not following mutation through `&mut` arguments."""
+        names, todo, seen = set(), list(ops), set()
+        while todo and len(seen) < limit:
+            o = todo.pop()
+            pl = op_place(o)
+            if pl is None:
+                continue
+            l = place_local(pl)
+            if l in seen:
+                continue
+            seen.add(l)
+            for d in f.defs().get(l, []):
+                if d[0] == "stmt":
+                    rv = d[3]
+                    if rv[0] == "ref":
+                        todo.append(["c", rv[1]])
+                    else:
+                        todo.extend(rvalue_operands(rv))
+                elif d[0] == "call":
+                    c = d[2]
+                    names.add(c.name())
+                    if c.name() not in stop:
+                        todo.extend(c.args)
+        return names
+    n_trav = n_push = 0
+    for p, f in sorted(F.fns.items()):
+        if not f.body or f.crate != "cairo_lang_lowering":
+            continue
+        # stacks: locals of type Vec<.. SpecializationArg ..> that are popped
+        stacks = set()
+        pop_blocks = set()
+        for c in f.calls():
+            if c.name() == "pop" and c.args and "alloc::vec::Vec" in c.path:
+                l = op_local(c.args[0])
+                if TY in (f.local_ty(l) or ""):
+                    d = f.single_def(l)
+                    if d and d[0] == "stmt" and d[3][0] == "ref":
+                        stacks.add(place_local(d[3][1]))
+                        pop_blocks.add(c.bb)
+        if not stacks:
+            continue
+        n_trav += 1
+        ctx.analysed(f)
+        loops = natural_loops(f)
+        loops = loops if isinstance(loops, dict) else dict(loops)
+
+        def innermost(bb):
+            best = None
+            for h, body in loops.items():
+                if bb in body and (best is None or len(body) < len(loops[best])):
+                    best = h
+            return best
+        pop_loops = {innermost(b) for b in pop_blocks}
+        for c in f.calls():
+            if c.name() not in ("push", "extend", "extend_from_slice", "append") or not c.args:
+                continue
+            l = op_local(c.args[0])
+            d = f.single_def(l) if l is not None else None
+            if not (d and d[0] == "stmt" and d[3][0] == "ref" and place_local(d[3][1]) in stacks):
+                continue
+            if c.name() == "push":
+                h = innermost(c.bb)
+                if h is None or h in pop_loops:
+                    continue          # one child (snapshot / enum payload / a marker): no order involved
+                if any(ph is not None and ph != h and ph in loops[h] for ph in pop_loops):
+                    continue          # the stack is drained inside this loop before the next push: one root at a time
+                nexts = [x for x in f.calls() if x.bb in loops[h] and x.name() == "next" and innermost(x.bb) == h]
+                names = set()
+                for x in nexts:
+                    names |= slice_calls(f, x.args)
+                what = "the loop that pushes the children iterates"
+            else:
+                names = slice_calls(f, c.args[1:])
+                if not ({"iter", "iter_mut", "into_iter", "values", "drain", "zip", "zip_eq"} & names):
+                    continue
+                what = "the children handed to `%s` are taken" % c.name()
+            n_push += 1
+            ok = "rev" in names
+            ctx.ob("R5.3", "%s|stack-%s@%d" % (fn_key(p), c.name(), n_push), ok,
+                   "%s in reverse, so the children are popped first-to-last" % what if ok else
+                   "%s in iteration order: the children of an aggregate are popped last-to-first, unlike in the sibling traversals of "
+                   "SpecializationArg trees (parameters, inputs and re-specialization disagree on the leaf order)" % what, c.where())
+        # the initial fill of the stack
+        for st_l in stacks:
+            for d in f.defs().get(st_l, []):
+                if d[0] == "call" and d[2].name() in ("collect", "collect_vec", "from_iter"):
+                    names = slice_calls(f, d[2].args)
+                    n_push += 1
+                    ok = "rev" in names
+                    ctx.ob("R5.3", "%s|stack-init@%d" % (fn_key(p), n_push), ok,
+                           "the traversal stack is initialised from the reversed top-level arguments" if ok else
+                           "the traversal stack is initialised in iteration order: the top-level arguments are popped last-to-first", d[2].where())
+    ctx.floor("stack-driven traversals of SpecializationArg trees", n_trav, 2)
+    ctx.floor("ordered pushes on those stacks", n_push, 4)
